@@ -180,6 +180,23 @@ def run(F, R, ctx):
             R.inst("C05.c", "%s uses AtomicU32::%s" % (sn, op), ok,
                    "%s modifies the shared count word with AtomicU32::%s, which is not a compare-exchange loop: concurrent "
                    "updates of counter and flags packed in the same word can be lost" % (sn, op), rcfns[n].loc(), sample=True)
+    # compare-exchange retry loops: the value to install is recomputed from the freshly observed word on every retry
+    ncas = 0
+    for n, fn in sorted(rcfns.items()):
+        cas = fn.call_blocks(r"\{impl SharedPacked\}::compare_exchange$")
+        recompute = set(fn.call_blocks(r"\{impl Packed\}::(update_counter|set_counter|set_merged|set_queued|set_value)$"))
+        for c in cas:
+            cyc = fn.reachable_from(fn.succ(c))
+            if c not in cyc:
+                continue  # single-shot CAS (has_unique_ref, try_unwrap_internal)
+            ncas += 1
+            stale = c in fn.reachable_from(fn.succ(c), avoid=recompute)
+            R.inst("C05.c", "%s / CAS retry recomputes the new word from the observed one" % fn.short(), not stale,
+                   "%s retries compare_exchange on a cycle that does not recompute the word to install (no Packed::"
+                   "update_counter/set_* on the retry path): after a failed exchange it installs a value derived from a "
+                   "stale observation and overwrites the other thread's concurrent update of counter/flags" % fn.short(),
+                   fn.loc(fn.blocks[c]["line"]), sample=True)
+    R.floor("C05.c", "compare-exchange retry loops", ncas, 5)
     _, callers = F.graph()
     for nm in ("is_merged", "is_queued", "value"):
         n = "steel_rc::{impl SharedPacked}::%s" % nm
